@@ -363,6 +363,11 @@ pub struct Sim {
     /// Poison free CQ slots so that reading an unpublished slot is visible.
     pub poison_free_slots: bool,
     pub dead: bool,
+    /// `Ev::Close` has been logged (the ring descriptor was found closed by a later ring call).
+    pub close_logged: bool,
+    /// Buffer groups whose ring memory was no longer a live heap block (according to the tracking
+    /// allocator, when it is enabled) at the moment they were unregistered.
+    pub pbuf_unregistered_after_free: Vec<u16>,
 }
 
 unsafe impl Send for Sim {}
@@ -486,6 +491,16 @@ pub fn take_closes() -> Vec<i32> {
 }
 
 impl Sim {
+    /// Called at the start of every hooked call that concerns this ring: if the ring descriptor
+    /// has been closed in the meantime (`OwnedFd` closes without a hook), say so once, *before*
+    /// the call is logged, so that "closed before the last munmap / enter / register" is visible
+    /// in the order of the log.
+    fn note_if_closed(&mut self) {
+        if !self.close_logged && unsafe { libc::fcntl(self.fd, libc::F_GETFD) } == -1 {
+            self.close_logged = true;
+            self.log.push(Ev::Close { fd: self.fd });
+        }
+    }
     fn unmap(&self) {
         unsafe {
             libc::munmap(self.sq_ring.cast(), RING_MAP);
@@ -859,6 +874,8 @@ unsafe fn hook_setup(entries: c_uint, p: *mut c_void) -> Option<c_int> {
         enabled: flags & SETUP_R_DISABLED == 0,
         poison_free_slots: false,
         dead: false,
+        close_logged: false,
+        pbuf_unregistered_after_free: Vec::new(),
     };
     if !cfg.unmappable {
         sim.a32(sim.sq_ring, SQ_HEAD).store(cfg.sq_start, Ordering::SeqCst);
@@ -895,6 +912,7 @@ unsafe fn hook_enter(
     {
         let mut g = global();
         let sim = g.sims.iter_mut().rev().find(|s| s.fd == fd && !s.dead)?;
+        sim.note_if_closed();
         sim.check_counters();
         if !sim.enabled {
             sim.log.push(Ev::Enter { to_submit, min_complete, flags, timeout, res: -libc::EBADFD });
@@ -972,6 +990,7 @@ unsafe fn hook_register(fd: c_int, opcode: c_uint, arg: *const c_void, nr: c_uin
         return Some(0);
     }
     let sim = g.sims.iter_mut().rev().find(|s| s.fd == fd && !s.dead)?;
+    sim.note_if_closed();
     sim.check_counters();
     if let Some((op, e)) = sim.cfg.fail_register {
         if op == opcode {
@@ -1035,7 +1054,15 @@ unsafe fn hook_register(fd: c_int, opcode: c_uint, arg: *const c_void, nr: c_uin
         UNREGISTER_PBUF_RING => {
             let r = unsafe { (arg as *const BufReg).read() };
             detail = format!("bgid={}", r.bgid);
-            if sim.pbufs.remove(&r.bgid).is_some() { 0 } else { -libc::ENOENT }
+            match sim.pbufs.remove(&r.bgid) {
+                Some(ring) => {
+                    if !crate::alloc::is_live(ring.addr as usize, 1) {
+                        sim.pbuf_unregistered_after_free.push(r.bgid);
+                    }
+                    0
+                }
+                None => -libc::ENOENT,
+            }
         }
         REGISTER_SYNC_CANCEL => {
             let r = unsafe { (arg as *const SyncCancelReg).read() };
@@ -1089,6 +1116,7 @@ unsafe fn hook_munmap(addr: *mut c_void, len: usize) -> Option<c_int> {
     for sim in g.sims.iter_mut().rev() {
         let mine = sim.log.iter().any(|e| matches!(e, Ev::Mmap { addr: a, res_ok: true, .. } if *a == addr as usize));
         if mine {
+            sim.note_if_closed();
             sim.log.push(Ev::Munmap { addr: addr as usize, len });
             break;
         }
